@@ -251,6 +251,28 @@ fn gen_text(u: &mut Chooser) -> String {
     s
 }
 
+/// free text, one character per choice: mostly from the alphabet duration strings are made of, otherwise arbitrary bytes
+/// (decoded leniently).  Under the coverage-guided target one input byte pair selects one character, so libFuzzer's byte
+/// mutations are character mutations.
+fn gen_raw_text(u: &mut Chooser) -> String {
+    const ALPHA: &[&str] = &["0", "1", "2", "5", "9", ".", "-", "+", "h", "m", "s", "n", "u", "µ", "μ", "ms", "ns", "us", "e", "E", " ", "i", "f", "a", "_", "x", "d", "\t", "00", "99", "inf", "nan", "1e", "0x", ",", "٣", "１"];
+    let len = u.below(24);
+    let mut bytes: Vec<u8> = vec![];
+    for _ in 0..len {
+        let x = u.raw();
+        let sel = (x >> 24) as usize;
+        if sel < 232 {
+            bytes.extend_from_slice(ALPHA[sel % ALPHA.len()].as_bytes());
+        } else {
+            bytes.push((x >> 16) as u8);
+            if sel & 1 == 1 {
+                bytes.push((x >> 8) as u8);
+            }
+        }
+    }
+    String::from_utf8_lossy(&bytes).into_owned()
+}
+
 pub fn run(r: &mut Runner) {
     r.rule = "cases: durations from the boundary set (0, +-1 ns ... +-1 h, +-59.999999999 s, i64::MIN / MAX ns and neighbours) and log-uniform random 64-bit nanosecond counts of both signs, as host-supplied Value::Duration and as duration('<n>ns'): \
               string(d) must be the canonical Go rendering (independent formatter), duration(string(d)) == d, duration(<oracle rendering>) exact; generated strings: well-formed multi-term decimal strings with all six units, and malformed ones from a mutation grammar \
@@ -312,6 +334,7 @@ pub fn run(r: &mut Runner) {
         |u: &mut Chooser| Case::Arith { a: gen_ns(u), b: gen_ns(u), op: u.pick(&["+", "-", "==", "!=", "<", "<=", ">", ">="]).to_string() },
         check,
     );
+    r.random("free-text", 25, n / 2, |u: &mut Chooser| Case::Parse { text: gen_raw_text(u) }, check);
     // round trip through the oracle's own rendering of random durations as *input text*
     r.random("random-canonical-strings", 8, n / 2, |u: &mut Chooser| Case::Parse { text: go_format(gen_ns(u) as i128) }, check);
     for c in ["negative", "sub-millisecond", "fractional-seconds", "malformed-rejected", "out-of-range-rejected", "arith-out-of-range-error", "well-formed-exact"] {
